@@ -214,13 +214,14 @@ theorem version_rows (cfg : Config) (db : Database) (dbv : VersionIf) (w : Wal)
     (T : TTree)
     (hT : TreeLaidOut (snapshotIf cfg.strict dbv db.dbSize.floor w.fh w.hdr.pageSize
       (groupFrames w.frames [] []).1 k) true T)
-    (frames : Nat) (hf : T.frames ≤ frames) (hnd : (T.leafCells.map (·.rowid)).Nodup) :
+    (frames : Nat) (hf : T.frames ≤ frames) (hpd : T.PagesDistinct)
+    (hnd : (T.leafCells.map (·.rowid)).Nodup) :
     ∃ t, getBTreeRoot v frames T.page = .ok t ∧
       Elementwise (fun s c => CellSpec.ReportedAs w.hdr.pageSize s c) T.leafCells (leafCells t) ∧
       (leafCells t).map Spec.cellRow = T.leafCells.map CellSpec.row ∧
       (aggregateLeafCells t []).1 = T.leafCells.length ∧
       (aggregateLeafCells t []).2.1.map (fun e => Spec.cellRow e.2) = T.leafCells.map CellSpec.row := by
-  obtain ⟨t, ht, rest⟩ := TreeParse.table_tree_rows _ hu hu2 T hT frames hf hnd
+  obtain ⟨t, ht, rest⟩ := TreeParse.table_tree_rows _ hu hu2 T hT frames hf hpd hnd
   exact ⟨t, (version_tree_eq_snapshot_tree cfg db dbv w vs h k ver v hk hdb0 frames T.page t).mpr ht, rest⟩
 
 /-- the same for the entries of an index b-tree (C14) -/
@@ -232,13 +233,13 @@ theorem version_index_entries (cfg : Config) (db : Database) (dbv : VersionIf) (
     (T : TTree)
     (hT : TreeLaidOut (snapshotIf cfg.strict dbv db.dbSize.floor w.fh w.hdr.pageSize
       (groupFrames w.frames [] []).1 k) false T)
-    (frames : Nat) (hf : T.frames ≤ frames) :
+    (frames : Nat) (hf : T.frames ≤ frames) (hpd : T.PagesDistinct) :
     ∃ t, getBTreeRoot v frames T.page = .ok t ∧
       Elementwise (fun s c => CellSpec.ReportedAs w.hdr.pageSize s c) T.allCells (t.flatMap (·.cells)) ∧
       (t.flatMap (·.cells)).map Spec.cellRow = T.allCells.map CellSpec.row ∧
       Elementwise (fun s c => CellSpec.ReportedAs w.hdr.pageSize s c) T.leafCells (leafCells t) ∧
       (aggregateLeafCells t []).1 = T.leafCells.length := by
-  obtain ⟨t, ht, rest⟩ := TreeParse.index_tree_entries _ hu hu2 T hT frames hf
+  obtain ⟨t, ht, rest⟩ := TreeParse.index_tree_entries _ hu hu2 T hT frames hf hpd
   exact ⟨t, (version_tree_eq_snapshot_tree cfg db dbv w vs h k ver v hk hdb0 frames T.page t).mpr ht, rest⟩
 
 /-! ### the snapshot interface in terms of `snapshotPage` / `snapshotBytes` -/
